@@ -50,7 +50,13 @@ func sampleReflog(h *Hist) {
 }
 
 func histCheck(prop string, theorems []string, rule string, mk func(ctx *Ctx) *HistCfg) *Check {
-	return &Check{Prop: prop, Theorems: theorems, Rule: rule, Hist: mk, Impl: runImplAPI}
+	return &Check{Prop: prop, Theorems: theorems, Rule: rule, Impl: runImplAPI, Hist: func(ctx *Ctx) *HistCfg {
+		c := mk(ctx)
+		if c.FreshPct == 0 {
+			c.FreshPct = 15
+		}
+		return c
+	}}
 }
 
 const histRule = "adaptive random histories of work-tree edits and goit invocations run on the real binary (fresh repository, isolated HOME), " +
@@ -127,13 +133,13 @@ func init() {
 		func(ctx *Ctx) *HistCfg {
 			return &HistCfg{Prop: "C18", Cases: tierN(ctx, 250, 3000), MinSteps: 5, MaxSteps: 40,
 				W:       weights(Weights{"junk": 14, "status": 5, "reflog": 4, "log": 3, "branch-rename": 4, "reset": 6, "rm": 6, "restore": 6}),
-				Oracles: []HistOracle{orC18}, NoIdent: 15}
+				Oracles: []HistOracle{orC18}, NoIdent: 15, FreshPct: 35}
 		})
 	checks["C20"] = histCheck("C20", []string{"C20.parse_render", "C20.add_get", "C20.local_overrides_global", "C20.global_fallback", "C20.isUserSet_iff"}, histRule,
 		func(ctx *Ctx) *HistCfg {
 			return &HistCfg{Prop: "C20", Cases: tierN(ctx, 200, 2000), MinSteps: 6, MaxSteps: 25,
 				W:       Weights{"config": 30, "commit": 10, "write": 10, "add-all": 8, "status": 1},
-				Oracles: []HistOracle{orC20}, NoIdent: 60}
+				Oracles: []HistOracle{orC20}, NoIdent: 60, FreshPct: 100}
 		})
 	checks["C12"] = histCheck("C12", []string{"C12.zone_table", "C12.parse_format", "C12.parse_format_quarter", "C12.email_chars"}, histRule+"; every invocation runs under a generated TZif file for an offset drawn from all quarter hours in [-12:00,+14:00]",
 		func(ctx *Ctx) *HistCfg {
